@@ -1,17 +1,8 @@
-"""Per-property configuration of ./check (which harness binary, sizes, shrinking, trusted base)."""
-
-PROPS = {
-    "C06": {
-        "harness": "c06",
-        "n_quick": 4000,
-        "n_thorough": 200000,
-        "shrink": "items",
-        "trusted_base": [
-            "routing hash (adler32 in gostatsd.Bucket) is a parameter of the model: the theorems hold for every routing function; its run-time values are an oracle column re-queried for consistency",
-        ],
-        "assumptions": [
-            "a Go map holds each key once (hypothesis MMap.WF / NodupKeys of the theorems)",
-            "values are compared through a canonical rendering (sorted set members; tags, source, timestamp, values verbatim)",
-        ],
-    },
-}
+"""Per-property configuration of ./check: one JSON file per property in lib/props.d/<id>.json
+(harness binary, case counts, shrinking mode, trusted base, assumptions, manifest texts)."""
+import json, os
+_D = os.path.join(os.path.dirname(os.path.abspath(__file__)), "props.d")
+PROPS = {}
+for _f in sorted(os.listdir(_D)):
+    if _f.endswith(".json"):
+        PROPS[_f[:-5]] = json.load(open(os.path.join(_D, _f)))
